@@ -397,3 +397,10 @@ class _S:
 SUBCHECKS = {"pc": _S(explore_pc, 8, "pc"), "se23": _S(explore_se23, 4, "se23"), "flat": _S(explore_flat, 8, "flat"), "helpers": _S(explore_helpers, 1, "helpers")}
 REPLAY = {"pc": lambda c: explore_pc(c).fails, "se23": lambda c: explore_se23(c).fails, "flat": lambda c: explore_flat(c).fails,
           "helpers": lambda c: explore_helpers(c).fails}
+
+# results must not depend on which library calls were made earlier in the process (see mc/order.py)
+from .. import order as _order  # noqa: E402
+
+_ORDER = _order.OrderSub("C14", "setpoints", None)
+SUBCHECKS["order"] = _ORDER
+REPLAY["order"] = _ORDER.replay
